@@ -389,7 +389,7 @@ func ruleOneFinalizePerResult(c *Ctx, r *Rule) {
 		// every return under this case is dominated by the finalizer call; and the function returns after it without another finalize / Do
 		allDom, any := true, false
 		for _, b := range fn.Blocks {
-			if ret, ok := b.Instrs[len(b.Instrs)-1].(*ssa.Return); ok && caseOf(ret) == n {
+			if ret, ok := asReturn(b); ok && caseOf(ret) == n {
 				any = true
 				if !instrDominates(f, ret) {
 					allDom = false
